@@ -147,6 +147,10 @@ def apply(s, op):
             r = s.cssRules[op[1]].add(RULES[op[2]]())
         elif k == 'mdel':
             r = s.cssRules[op[1]].deleteRule(op[2])
+        elif k == 'insl':
+            r = s.insertRule(_rule_list(op[1]), op[2])
+        elif k == 'minsl':
+            r = _containers(s)[op[1]].insertRule(_rule_list(op[2]), op[3])
         elif k == 'sprop':
             # a ready-made Property object (as the library itself hands over when it merges blocks)
             _styled(s)[op[1]].style.setProperty(css.Property('z', 'w'))
@@ -165,7 +169,15 @@ def apply(s, op):
         return ('rejected', type(e).__name__)
 
 
-PROBES = ('sprop', 'smove')  # judged like every transition, but their target states are not expanded (they leave the rule alphabet)
+RULE_LISTS = ['a{x:y}/*c*/', 'a{x:y}@font-face{font-family:x}', '@charset "ascii";a{x:y}', '@import "x.css";a{x:y}', '@namespace p "u";p|b{x:y}', '@font-face{font-family:x}@media tv{a{x:y}}@page{x:y}']
+
+
+def _rule_list(k):
+    """a CSSRuleList (the rule list of another sheet): insertRule takes one in place of a rule"""
+    return cssutils.CSSParser(fetcher=fetch).parseString(RULE_LISTS[k], href='http://v/l.css').cssRules
+
+
+PROBES = ('sprop', 'smove', 'insl', 'minsl')  # judged like every transition, but their target states are not expanded (they leave the rule alphabet)
 
 
 def _styled(s):
@@ -182,9 +194,26 @@ def _styled(s):
     return out
 
 
+def _containers(s):
+    """every rule that holds rules (@media, @page), at any depth, in document order"""
+    out = []
+
+    def walk(rules):
+        for r in rules:
+            if r.type in (R.MEDIA_RULE, R.PAGE_RULE):
+                out.append(r)
+                walk(r.cssRules)
+    walk(s.cssRules)
+    return out
+
+
 def ops(s, L):
     n = s.cssRules.length
     ns = len(_styled(s))
+    for k in range(len(RULE_LISTS)):
+        yield ('insl', k, n)
+        for c, cont in enumerate(_containers(s)):
+            yield ('minsl', c, k, 0)
     for i in range(ns):
         yield ('sprop', i)
         yield ('smove', i)
@@ -458,7 +487,11 @@ def step(res, hist, op, L, tier):
         res.clauses['C09.rejected-unchanged'] += 1
         res.counters['rejected'] += 1
         if after != before:
-            res.violation('C09.rejected-unchanged', f'{op[0]}|{out[1]}|{_changed(before, after)}', case, _short(before), _short(after), size=size)
+            if op[0] in ('insl', 'minsl'):
+                sig = f'rule-list-partly-inserted|{op[0]}'  # which rule of the list is refused, and how, is incidental
+            else:
+                sig = f'{op[0]}|{out[1]}|{_changed(before, after)}'
+            res.violation('C09.rejected-unchanged', sig, case, _short(before), _short(after), size=size)
     else:
         res.counters['accepted'] += 1
         if removed is not None:
